@@ -246,6 +246,45 @@ def run(facts, tier):
             g8.violate("anchor", f"open_module fills {len(pushes)} lists (expected imported and included modules)")
     rules.append(g8.finish())
 
+    # ---------------- G16.9 resolution order of a call
+    g9 = Rule("G16.9", "an unqualified call is resolved against local definitions first, then against the definitions of the included/imported modules, and only then against the "
+              "native filters: in the compiler's call resolution the look-up among local definitions dominates the walk over the included modules, which dominates the "
+              "construction of a native call (a module may redefine a natively implemented filter, as an inlined definition does)", floor=2)
+    cj = facts.mir_find(r"^jaq_core::compile::Compiler::<.*>::call$", "jaq_core")
+    comp = [a for a in facts.items("jaq_core")["adts"] if a["def"] == "jaq_core::compile::Compiler"]
+    if len(cj) != 1 or not comp:
+        g9.missing_anchor("Compiler::call / struct Compiler")
+    else:
+        fields = [f_["name"] for f_ in comp[0]["variants"][0]["fields"]]
+        b = Body(cj[0])
+        loc = b.find_calls(r"^jaq_core::compile::Locals::<.*>::call$")
+        nat = [i_ for i_, bb_ in enumerate(b.bbs) for s_ in bb_["st"] if s_.get("k") == "A" and s_["r"].get("k") == "Agg" and s_["r"].get("variant") == "Native" and "compile::Term" in (s_["r"].get("ak") or "")]
+        mods = []
+        if "included_mods" in fields:
+            k_ = fields.index("included_mods")
+            reads = set()
+            for bb_ in b.bbs:
+                for s_ in bb_["st"]:
+                    if s_.get("k") == "A" and s_["r"].get("k") in ("Ref", "Use"):
+                        pl = s_["r"].get("p") or s_["r"]["o"].get("c") or s_["r"]["o"].get("m")
+                        if pl and {"f": k_} in (pl.get("pr") or []) and b.locals[pl["l"]]["ty"].lstrip("&mut ").startswith("jaq_core::compile::Compiler<"):
+                            reads.add(s_["p"]["l"])
+            der = b.derived_from(reads) if reads else set()
+            mods = [i_ for i_, t_ in b.calls() if set(b.arg_locals(i_)) & der and not b.bbs[i_].get("cleanup")]
+        if not loc or not nat or not mods:
+            g9.missing_anchor(f"stages of the call resolution (local look-up {len(loc)}, walk over included_mods {len(mods)}, native call {len(nat)})")
+        else:
+            m0 = min(mods)
+            ok1 = any(b.node_dominates(l_, m0) for l_ in loc)
+            ok2 = all(any(b.node_dominates(m_, n_) for m_ in mods) for n_ in nat)
+            g9.examined("locals-before-modules", True, {"local_definitions_before_modules": ok1})
+            g9.examined("modules-before-natives", True, {"modules_before_native_filters": ok2})
+            if not ok1:
+                g9.violate("order/locals", "the walk over the included modules is not preceded by the look-up among local definitions", where=cj[0]["sp"])
+            if not ok2:
+                g9.violate("order/natives", "a native call can be chosen without (or before) consulting the definitions of the included/imported modules: a module's definition no longer shadows a natively implemented filter of the same name and arity", where=cj[0]["sp"])
+    rules.append(g9.finish())
+
     explanation = ("Dominance / control-dependence / value-flow rules on the MIR of the module loader (Loader::find), the file look-up (Import::find and its closures) and Compiler::open_module. "
                    "Decided: cycle guard, load-once guard, refusal of absolute paths, search order, extension rule, expand-then-join, one look-up for modules and data, per-module visibility reset. "
                    "Not decided: name resolution and variable indices across modules (value-level, C01-like).")
